@@ -347,11 +347,22 @@ class FnTranslator:
             call = stmt.value
         elif isinstance(stmt, ast.Assign) and isinstance(stmt.value, ast.Call):
             call = stmt.value
-        if call is None:
-            return None
-        src = ast.unparse(call)
-        for rx, tag, argsrc in self.events:
-            m = re.search(rx, src)
+        # an event spec is [regex, tag, [argument expressions]] matched on the unparsed CALL of the statement, or
+        # [regex, tag, [args], 'stmt'] matched on the whole unparsed STATEMENT (slice assignments `a[i:j] = w`, `yield (...)`)
+        whole = None
+        if any(len(sp) > 3 and sp[3] == 'stmt' for sp in self.events) and isinstance(stmt, (ast.Assign, ast.AugAssign, ast.Expr)):
+            try:
+                whole = ast.unparse(ast.fix_missing_locations(stmt))
+            except Exception:     # synthetic nodes built by forloop()
+                whole = None
+        src = ast.unparse(call) if call is not None else None
+        for spec in self.events:
+            rx, tag, argsrc = spec[0], spec[1], spec[2]
+            on_stmt = len(spec) > 3 and spec[3] == 'stmt'
+            text = whole if on_stmt else src
+            if text is None:
+                continue
+            m = re.search(rx, text)
             if m:
                 args = []
                 for a in argsrc:
@@ -600,11 +611,11 @@ class FnTranslator:
                     return 'none'
                 raise Untranslatable('bare return in a value function')
             return f'(some {self.value(s.value, env)})' if self.option_return else self.value(s.value, env)
-        if isinstance(s, ast.Expr) and isinstance(s.value, ast.Yield):
-            return f'{self.value(s.value.value, env)} :: {cont(env)}'
         ev = self.event_of(s, env) if self.events else None
         if ev is not None:
             return f'{ev} :: {cont(env)}'
+        if isinstance(s, ast.Expr) and isinstance(s.value, ast.Yield):
+            return f'{self.value(s.value.value, env)} :: {cont(env)}'
         if isinstance(s, ast.Break):
             return self.after_loop[-1](env)
         if isinstance(s, ast.Continue):
